@@ -10,6 +10,7 @@ use serde_json::{json, Value};
 mod keys;
 mod c04;
 mod verify;
+mod datetime;
 
 pub fn err_name(e: &in_toto::Error) -> String {
     let d = format!("{:?}", e);
@@ -56,6 +57,7 @@ fn main() {
         let r = guarded(|| match kind {
             "metablock_verify" => c04::run(&pool, sc),
             "verify" => verify::run(&pool, sc),
+            "parse_datetime" => datetime::run(sc),
             _ => json!({"outcome": "unsupported-kind"}),
         });
         out.push(r);
